@@ -32,6 +32,11 @@ Line-protocol driver for the C13 models (calendar, interval calculators, query p
   batch <c> t1 t2 ...               -> F:t,t,.. F:t,..  (family groups of one shard's rows, BrokerBatchShardFamilyIterator;
                                         groups sorted by family, rows sorted) | none
   rollup <src> <tgt> <srcFamilyTime> <slot> -> <targetFTime> <ratio> <baseSlot> <ts> <slot(ts)> | panic
+  goc <c> | t1 t2 ... | i1 i2 ...   -> T <obj per writer> R <registered obj per writer> opened <n>
+                                       (writers Shard.GetOrCrateDataFamily(t1), (t2), .. on fresh segments; the
+                                        schedule i1 i2 .. lets writer i run one atomic step; then all run to the
+                                        end in index order; objects numbered by first appearance; in the shapes the
+                                        regenerated step lists of GetOrCreateSegment / GetOrCreateDataFamily select)
   overlap <s1> <e1> <s2> <e2>       -> true | false
   intersect <s1> <e1> <s2> <e2>     -> <s> <e>
   qi <start> <end> <interval>       -> CalcQueryInterval
@@ -44,6 +49,7 @@ Line-protocol driver for the C13 models (calendar, interval calculators, query p
 import LinVerif.Util.Proto
 import LinVerif.Model.Interval
 import LinVerif.Model.IntervalZone
+import LinVerif.Model.GetOrCreate
 import LinVerif.Generated.C13
 
 namespace LinVerif.Driver.C13
@@ -71,6 +77,16 @@ def splitBar (ws : List String) : List (List String) :=
 
 /-- the lookup variant of the current source (regenerated fact) -/
 def lookupVariant : Option LookupVariant := lookupVariantOf LinVerif.Generated.C13.gdfRangeExprs
+
+/-- the shapes of the two get-or-create levels of the write path in the current source
+(regenerated lock / lookup / create / store events) -/
+def gocVariants : Option (GocVariant × GocVariant) :=
+  match gocVariantOf "segments" "newSegmentFunc" LinVerif.Generated.C13.getOrCreateSegmentEvents,
+        gocVariantOf "families" "newDataFamilyFunc"
+          (gocInline "initDataFamily" LinVerif.Generated.C13.initDataFamilyEvents
+            LinVerif.Generated.C13.getOrCreateDataFamilyEvents) with
+  | some vs, some vf => some (vs, vf)
+  | _, _ => none
 
 def sortInts (l : List Int) : List Int := (l.toArray.qsort (· < ·)).toList
 
@@ -256,6 +272,20 @@ def step (st : Unit) (ws : List String) : Unit × String :=
         | some r, some b, some sl => s!"{tf} {r} {b} {ts} {sl}"
         | _, _, _ => "panic"
       | _, _, _, _ => "bad-op"
+    | "goc" :: rest =>
+      match splitBar rest with
+      | [[c], ts, sched] =>
+        match parseCalc c, ints ts, sched.mapM String.toNat? with
+        | some c, some ts, some sched =>
+          match gocVariants with
+          | some (vs, vf) =>
+            let s := gDrain vs vf (gRun vs vf (gInit c ts) sched)
+            let can := gCanon (s.threads.map (·.famObj) ++ s.threads.map (gRegistered s))
+            let n := s.threads.length
+            s!"T {" ".intercalate (can.take n)} R {" ".intercalate (can.drop n)} opened {s.opened}"
+          | none => "unknown-variant"
+        | _, _, _ => "bad-op"
+      | _ => "bad-op"
     | "match" :: rest =>
       match splitBar rest with
       | [[q], ivs] =>
